@@ -194,3 +194,16 @@ Theorem original_fboundp_qualified_refuted :
   res_mask (sq_fun (fold_left sxstep ops (sinit 0%N)) 1%N 0%N 2%N true) = 31%N /\
   res_mask_orig true (q_fun (fold_left xstep ops (init 0%N)) 1%N 0%N 2%N true) = 28%N.
 Proof. vm_compute. repeat split. Qed.
+
+(* ---- qualified fmakunbound: inside the guard, and it acts: (fmakunbound '0::vf) from package 1 removes the
+   private function of package 0, (fmakunbound '0:vf) from package 1 leaves it (the name is not visible);
+   the unrepaired code (fmakunbound_q_orig: nothing happens) differs from S on the first history ---- *)
+Theorem fmakunbound_q_nonvacuous :
+  let two := [XB (ODefun 2%N 1); XB (OInPkg 1%N); XFmakunboundQ 0%N 2%N true] in
+  let one := [XB (ODefun 2%N 1); XB (OInPkg 1%N); XFmakunboundQ 0%N 2%N false] in
+  xguard_run PK NM (sinit 0%N) two = true /\ xguard_run PK NM (sinit 0%N) one = true /\
+  sq_fun (fold_left sxstep two (sinit 0%N)) 1%N 0%N 2%N true = QUnbound /\
+  q_fun (fold_left xstep two (init 0%N)) 1%N 0%N 2%N true = QUnbound /\
+  sq_fun (fold_left sxstep one (sinit 0%N)) 1%N 0%N 2%N true = QVal 1 /\
+  q_fun (fmakunbound_q_orig (fold_left xstep [XB (ODefun 2%N 1); XB (OInPkg 1%N)] (init 0%N)) 0%N 2%N true) 1%N 0%N 2%N true = QVal 1.
+Proof. vm_compute. repeat split. Qed.
